@@ -264,7 +264,18 @@ fn store_record(r: &mut Rng, owners: &[Labels], ttl: u32) -> Rec {
 
 fn query_for(r: &mut Rng, id: u16, names: &[Labels]) -> MsgSpec {
     let nq = 1 + r.usize_below(3);
-    let mut m = MsgSpec { id, flags: 0, ..Default::default() };
+    // header bits a querier may set and a responder has to ignore (RFC 6762 §18: TC announces
+    // more known answers, AA/RD/RA/AD/CD are ignored on reception); opcode and rcode stay 0
+    let mut flags = 0u16;
+    if r.chance(1, 5) {
+        for b in [0x0400u16, 0x0200, 0x0100, 0x0080, 0x0020, 0x0010] {
+            if r.chance(1, 3) {
+                flags |= b;
+            }
+        }
+    }
+    let nq = if r.chance(1, 20) { 4 + r.usize_below(9) } else { nq };
+    let mut m = MsgSpec { id, flags, ..Default::default() };
     for _ in 0..nq {
         let qtype = match r.below(10) {
             0..=1 => t::ANY,
@@ -484,6 +495,10 @@ pub fn generate(seed: u64, focus: &str, profile: Profile) -> Scenario {
     for s in &services {
         owners.push(name_from_str(s));
     }
+    if r.chance(1, 6) {
+        // the root name: every other owner is a subdomain of it
+        owners.push(Vec::new());
+    }
     if r.chance(1, 2) {
         owners.push(name_from_str("printer.office.local"));
         owners.push(name_from_str("officeprinter.local"));
@@ -586,6 +601,9 @@ pub fn generate(seed: u64, focus: &str, profile: Profile) -> Scenario {
                     names.push(hostile_name(&mut r, &name_from_str(services[0])));
                 }
                 let mut m = query_for(&mut r, qid, &names);
+                if hostile && r.chance(1, 8) {
+                    m.flags |= *r.pick(&[0x0800u16, 0x2000, 0x7800, 0x0001, 0x0003, 0x000f, 0x0040]);
+                }
                 if !known_pool.is_empty() && r.chance(1, 4) {
                     // what real queriers append: a known-answer list (RFC 6762 §7.1) and, when
                     // probing, the proposed records in the authority section (§8.2). The
@@ -625,6 +643,19 @@ pub fn generate(seed: u64, focus: &str, profile: Profile) -> Scenario {
                 qid = qid.wrapping_add(1);
                 let svc = name_from_str(*r.pick(&SERVICES));
                 let mut m = MsgSpec { id: qid, flags: 0x8400, ..Default::default() };
+                if r.chance(1, 5) {
+                    // AA is "ignored on reception", so are TC/RD/RA/AD/CD (RFC 6762 §18)
+                    m.flags = 0x8000;
+                    for b in [0x0400u16, 0x0200, 0x0100, 0x0080, 0x0020, 0x0010] {
+                        if r.chance(1, 2) {
+                            m.flags |= b;
+                        }
+                    }
+                }
+                if hostile && r.chance(1, 8) {
+                    // opcode / rcode / Z: "MUST be silently ignored" or rejected — fuzzy only
+                    m.flags |= *r.pick(&[0x0800u16, 0x2000, 0x7800, 0x0001, 0x0003, 0x000f, 0x0040]);
+                }
                 let mut fake_used = Vec::new();
                 let mut fake = inst(&mut r, &mut fake_used);
                 if r.chance(1, 3) {
